@@ -605,6 +605,10 @@ class FlowState:
     # first waiting statement (or finished) at least once
     has_started: bool = False
 
+    # For the reference instance of an activated flow: the number of instances in a
+    # row that failed before they reached their first waiting statement
+    immediate_failures: int = 0
+
     # The flow event name mapping
     _event_name_map: dict = field(init=False)
 
